@@ -93,7 +93,11 @@ func (exec *Executor) execArrayIndex(
 					return statusOK, nil
 				}
 
+				// The steps after the subscript are outside its brackets: a
+				// LAST in them refers to the enclosing subscript's array.
+				exec.innermostArraySize = innermostArraySize
 				res, resErr = exec.executeNextItem(ctx, node, next, v, found)
+				exec.innermostArraySize = size
 				if res.failed() || (res == statusOK && found == nil) {
 					return res, resErr
 				}
